@@ -173,8 +173,6 @@ def run(ctx):
     r, I = ctx.run(init, args={'fchans': NONE, 'tchans': NONE, 'data': sym('DATA'), 'waterfall': NONE,
                                'kwargs': Term.of(Atom('dict', (lift('t_start'), sym('TS')), (lift('source_name'), sym('SN'))))},
                    no_inline=('frame.Frame._update_noise_frame_stats', 'frame.Frame.get_params'), expand=False)
-    ctx.formula('PROPAGATE', 'the constructor stores a copy of the given data (not a view)', init, selfattr(r, 'data') or NONE,
-                ctx.spec(init, 'np.copy(DATA)', env={'DATA': sym('DATA')}), node=init.node, construct='self.data [data route]')
     dv = selfattr(r, 'data')
     da = dv.single_atom() if dv is not None else None
     FRESH = {'copy', 'deepcopy', 'zeros', 'empty', 'full', 'ones'}
